@@ -15,6 +15,8 @@ inputs of the correspondence run (exact regime).  The order theorems hold for ev
 import OFV.Proofs.C03
 import OFV.Proofs.C03Normal
 import OFV.Proofs.C03Spec
+import OFV.Proofs.C03Fock
+import OFV.Proofs.C03Valid
 import Mathlib.Tactic.NormNum
 
 namespace OFV.C03
@@ -157,5 +159,28 @@ theorem spec_car_diff_modes (i j a b s : Nat) (hij : i ≠ j) :
     | none, none => True
     | _, _ => False :=
   Proofs.C03.spec_car_diff_modes i j a b s hij
+
+/-! ## soundness against the fermionic Spec itself (Fock space)
+
+`fockInterp` lifts `Spec.actF` to `Module.End GQ (ℕ →₀ GQ)` (free module over Fock basis
+states); it satisfies the CAR (`fock_car_*`, from the state-by-state facts above), so the
+abstract theorem applies; `fock_evalOp_melF` identifies the lifted denotation with the executable
+matrix element `Spec.melF` that the oracle evaluates. -/
+
+/-- `normal_ordered(op)` and `op` denote the same endomorphism of Fock space. -/
+theorem normal_ordered_sound_fock (a : Op) :
+    fockInterp.evalOp (normalOrdered 0 .fermion a) = fockInterp.evalOp a :=
+  normalOrdered_sound fockInterp .fermion
+    (relations_fermion fockInterp fock_car_mixed fock_car_same fock_car_sq) a
+
+/-- … hence all matrix elements of the executable Spec agree: for every FermionOperator with
+action codes 0 / 1, every pair of Fock basis states `s`, `out`:
+`⟨out| normal_ordered(A) |s⟩ = ⟨out| A |s⟩` (this is exactly what `spec.eq` tests, for ALL
+inputs and all states). -/
+theorem normal_ordered_sound_melF (a : Op) (hv : ∀ e ∈ a, ∀ f ∈ e.1, f.2 < 2) (out s : Nat) :
+    Spec.melF (normalOrdered 0 .fermion a) out s = Spec.melF a out s := by
+  have hv' : ∀ e ∈ normalOrdered 0 .fermion a, ∀ f ∈ e.1, f.2 < 2 :=
+    normalOrdered_valid 0 .fermion (fun f => f.2 < 2) (fun t ht => ht) a hv
+  rw [← fock_evalOp_melF _ hv', ← fock_evalOp_melF _ hv, normal_ordered_sound_fock]
 
 end OFV.C03
